@@ -42,6 +42,9 @@ type region struct {
 	callPt Point // the call node in the caller (first node of the continuation block)
 	parent *region
 	rets   []retInfo // the helper's return sites (result expressions, evaluated at pt)
+	// a method spliced at a call of a function value bound to a method value: what its receiver is
+	recvX  ast.Expr
+	recvPt Point
 }
 
 type retInfo struct {
@@ -186,25 +189,66 @@ func (f *FuncCFG) reach(from Point, o *searchOpts, target func(pt Point, atExit 
 	// versa) unless v was assigned in between. This removes the infeasible paths that arise when the
 	// same flag is tested twice - typically once inside a spliced helper and once by its caller on the
 	// value the helper returned (`found := m.lookup(k)` / `if found { ... }` ... `if !found`).
+	// The same consistency is kept for error variables (known nil / known non-nil), and it follows
+	// the value through the returns of spliced helpers: the result a helper handed back on this path
+	// (the literal nil, a constructed error, a variable known to be non-nil, or the result of a
+	// further spliced helper it returned) becomes what is known about the variable the caller
+	// assigns it to. `return inner()` chains of any depth therefore keep "the store write failed"
+	// apart from "the caller saw no error".
 	type item struct {
 		b     *cfg.Block
 		i     int
 		path  []string
-		facts map[types.Object]bool
+		facts map[types.Object]bool // boolean local: its value; error local: true = non-nil
+		rets  map[*region]int8      // error result of the return last taken in a region: 1 non-nil, -1 nil
 	}
-	fp := func(b *cfg.Block, facts map[types.Object]bool) string {
-		if len(facts) == 0 {
+	fp := func(b *cfg.Block, facts map[types.Object]bool, rets map[*region]int8) string {
+		if len(facts) == 0 && len(rets) == 0 {
 			return fmt.Sprintf("%p", b)
 		}
 		var ks []string
 		for o, v := range facts {
 			ks = append(ks, fmt.Sprintf("%d:%v", o.Pos(), v))
 		}
+		for rg, v := range rets {
+			ks = append(ks, fmt.Sprintf("%p=%d", rg, v))
+		}
 		sort.Strings(ks)
 		return fmt.Sprintf("%p|%s", b, strings.Join(ks, ","))
 	}
+	isErrVar := func(e ast.Expr) types.Object {
+		o := objOfIdentRaw(f.Info, e)
+		if v, ok := o.(*types.Var); ok && types.Identical(v.Type(), errorType) {
+			return v
+		}
+		return nil
+	}
+	nilness := func(e ast.Expr, facts map[types.Object]bool, rets map[*region]int8) int8 {
+		e = ast.Unparen(e)
+		if isNil(f.Info, e) {
+			return -1
+		}
+		if c, ok := e.(*ast.CallExpr); ok {
+			if rg := f.regionByCall(c); rg != nil {
+				return rets[rg]
+			}
+			if isErrorConstructor(calleeShort(f.Info, c)) {
+				return 1
+			}
+			return 0
+		}
+		if o := isErrVar(e); o != nil {
+			if v, has := facts[o]; has {
+				if v {
+					return 1
+				}
+				return -1
+			}
+		}
+		return 0
+	}
 	seen := map[string]bool{}
-	queue := []item{{from.B, from.I, nil, nil}}
+	queue := []item{{from.B, from.I, nil, nil, nil}}
 	first := true
 	for len(queue) > 0 {
 		it := queue[0]
@@ -213,7 +257,7 @@ func (f *FuncCFG) reach(from Point, o *searchOpts, target func(pt Point, atExit 
 			continue
 		}
 		if !first || it.i == 0 {
-			k := fp(it.b, it.facts)
+			k := fp(it.b, it.facts, it.rets)
 			if seen[k] {
 				continue
 			}
@@ -223,6 +267,15 @@ func (f *FuncCFG) reach(from Point, o *searchOpts, target func(pt Point, atExit 
 		blocked := false
 		path := it.path
 		facts := it.facts
+		rets := it.rets
+		setFact := func(ob types.Object, v bool) {
+			cp := map[types.Object]bool{}
+			for k2, v2 := range facts {
+				cp[k2] = v2
+			}
+			cp[ob] = v
+			facts = cp
+		}
 		for i := it.i; i < len(it.b.Nodes); i++ {
 			n := it.b.Nodes[i]
 			if target(Point{it.b, i}, false) {
@@ -231,6 +284,29 @@ func (f *FuncCFG) reach(from Point, o *searchOpts, target func(pt Point, atExit 
 			if f.nodeBlocked(n, o) {
 				blocked = true
 				break
+			}
+			if f.noConsist == 0 {
+				// a return site of a spliced helper: what its error result is on this path
+				if rg := f.regionOf[it.b]; rg != nil {
+					for ri := range rg.rets {
+						rt := &rg.rets[ri]
+						if rt.pt.B == it.b && rt.pt.I == i && len(rt.results) > 0 {
+							last := rt.results[len(rt.results)-1]
+							if t := f.Info.TypeOf(last); t != nil && (types.Identical(t, errorType) || isNil(f.Info, last)) {
+								cp := map[*region]int8{}
+								for k2, v2 := range rets {
+									cp[k2] = v2
+								}
+								if v := nilness(last, facts, rets); v != 0 {
+									cp[rg] = v
+								} else {
+									delete(cp, rg)
+								}
+								rets = cp
+							}
+						}
+					}
+				}
 			}
 			// an assignment to a tracked variable ends what is known about it
 			if len(facts) > 0 {
@@ -267,6 +343,18 @@ func (f *FuncCFG) reach(from Point, o *searchOpts, target func(pt Point, atExit 
 					facts = nf
 				}
 			}
+			// `..., err := helper(...)` with the helper spliced: err is what the helper returned
+			if as, isAs := n.(*ast.AssignStmt); isAs && len(as.Rhs) == 1 && f.noConsist == 0 {
+				if c, isCall := ast.Unparen(as.Rhs[0]).(*ast.CallExpr); isCall {
+					if rg := f.regionByCall(c); rg != nil {
+						if v, has := rets[rg]; has && v != 0 {
+							if ob := isErrVar(as.Lhs[len(as.Lhs)-1]); ob != nil {
+								setFact(ob, v > 0)
+							}
+						}
+					}
+				}
+			}
 		}
 		if blocked {
 			continue
@@ -292,6 +380,25 @@ func (f *FuncCFG) reach(from Point, o *searchOpts, target func(pt Point, atExit 
 			if isBranch {
 				contradiction := false
 				for _, ft := range f.EdgeFacts(it.b, si == 0) {
+					// err == nil / err != nil on an error local
+					if x, nonNilOnTrue, isTest := nilTest(f.Info, ft.Atom); isTest {
+						if ob := isErrVar(x); ob != nil {
+							nonNil := nonNilOnTrue == ft.Pol
+							if v, has := nf[ob]; has {
+								if v != nonNil {
+									contradiction = true
+								}
+								continue
+							}
+							cp := map[types.Object]bool{}
+							for k2, v2 := range nf {
+								cp[k2] = v2
+							}
+							cp[ob] = nonNil
+							nf = cp
+						}
+						continue
+					}
 					id, isId := ast.Unparen(ft.Atom).(*ast.Ident)
 					if !isId {
 						continue
@@ -320,7 +427,7 @@ func (f *FuncCFG) reach(from Point, o *searchOpts, target func(pt Point, atExit 
 					continue
 				}
 			}
-			queue = append(queue, item{s, 0, path, nf})
+			queue = append(queue, item{s, 0, path, nf, rets})
 		}
 	}
 	return nil, false
@@ -762,6 +869,9 @@ func (f *FuncCFG) Calls(pred func(*ast.CallExpr) bool) []*ast.CallExpr {
 func (f *FuncCFG) paramArg(obj types.Object, pt Point) (ast.Expr, Point, bool) {
 	for reg := f.regionOf[pt.B]; reg != nil; reg = reg.parent {
 		if reg.fd.Recv != nil && len(reg.fd.Recv.List) == 1 && len(reg.fd.Recv.List[0].Names) == 1 && f.Info.Defs[reg.fd.Recv.List[0].Names[0]] == obj {
+			if reg.recvX != nil {
+				return reg.recvX, reg.recvPt, true
+			}
 			if se, ok := ast.Unparen(reg.call.Fun).(*ast.SelectorExpr); ok {
 				return se.X, reg.callPt, true
 			}
@@ -1325,6 +1435,27 @@ func stmtLevelCall(n ast.Node) *ast.CallExpr {
 	case *ast.ReturnStmt:
 		if len(x.Results) == 1 {
 			e = x.Results[0]
+		} else {
+			// `return helper(...), nil`: one call, every other result a constant (no evaluation-order
+			// question)
+			for _, res := range x.Results {
+				if c, isCall := ast.Unparen(res).(*ast.CallExpr); isCall {
+					if e != nil {
+						return nil
+					}
+					e = c
+					continue
+				}
+				switch y := ast.Unparen(res).(type) {
+				case *ast.BasicLit:
+				case *ast.Ident:
+					if y.Name != "nil" && y.Name != "true" && y.Name != "false" {
+						return nil
+					}
+				default:
+					return nil
+				}
+			}
 		}
 	case *ast.ValueSpec:
 		if len(x.Values) == 1 {
@@ -1369,6 +1500,8 @@ func (f *FuncCFG) expand(depth int, onStack map[*types.Func]bool) {
 				continue
 			}
 			var fd *ast.FuncDecl
+			var recvX ast.Expr
+			var recvPt Point
 			fn := staticCallee(f.Info, call)
 			if fn != nil {
 				if f.rescan[b] {
@@ -1388,10 +1521,19 @@ func (f *FuncCFG) expand(depth int, onStack map[*types.Func]bool) {
 				// (`forEach(func(k, v) {...})` with `visit(k, v)` inside forEach). Splicing the
 				// literal's body at the call is exact inlining.
 				ft, body := f.boundLiteral(call.Fun, Point{b, i})
-				if body == nil || f.litOnStack[body] || body == f.Body || stmtCount(body) > expandMaxStmts {
-					continue
+				if body == nil {
+					// ... or one method value of an unexported method (`t.locked(t.release)`): the
+					// method's body with its receiver standing for the value's receiver expression
+					if mfd, mfn, rx, rpt := f.boundMethodValue(call.Fun, Point{b, i}); mfd != nil && !onStack[mfn] && !mfd.Name.IsExported() && di.infoOf[mfd] == f.Info && mfd.Body != f.Body && stmtCount(mfd.Body) <= expandMaxStmts {
+						fd, fn, recvX, recvPt = mfd, mfn, rx, rpt
+					}
 				}
-				fd = &ast.FuncDecl{Name: ast.NewIdent("func"), Type: ft, Body: body}
+				if fd == nil {
+					if body == nil || f.litOnStack[body] || body == f.Body || stmtCount(body) > expandMaxStmts {
+						continue
+					}
+					fd = &ast.FuncDecl{Name: ast.NewIdent("func"), Type: ft, Body: body}
+				}
 			}
 			sub := &FuncCFG{P: f.P, Info: f.Info, Body: fd.Body, G: cfg.New(fd.Body, mayReturn(f.Info)), Name: f.Name, expandedHead: map[*cfg.Block]bool{}, litOnStack: map[*ast.BlockStmt]bool{fd.Body: true}}
 			for k := range f.litOnStack {
@@ -1412,7 +1554,7 @@ func (f *FuncCFG) expand(depth int, onStack map[*types.Func]bool) {
 				f.regionOf = map[*cfg.Block]*region{}
 			}
 			f.regionOf[tail] = f.regionOf[b]
-			reg := &region{call: call, fd: fd, callPt: Point{tail, 0}, parent: f.regionOf[b]}
+			reg := &region{call: call, fd: fd, callPt: Point{tail, 0}, parent: f.regionOf[b], recvX: recvX, recvPt: recvPt}
 			b.Nodes = b.Nodes[:i:i]
 			entry := sub.G.Blocks[0]
 			b.Succs = []*cfg.Block{entry}
@@ -2694,6 +2836,50 @@ func (f *FuncCFG) boundLiteral(e ast.Expr, pt Point) (*ast.FuncType, *ast.BlockS
 	return nil, nil
 }
 
+// boundMethodValue: e (a function value called at pt) is bound, through the parameters of spliced
+// helpers, to one method value x.m: the method's declaration, and x with the point it was evaluated at.
+func (f *FuncCFG) boundMethodValue(e ast.Expr, pt Point) (*ast.FuncDecl, *types.Func, ast.Expr, Point) {
+	cur := e
+	for hops := 0; hops < 5; hops++ {
+		switch x := ast.Unparen(cur).(type) {
+		case *ast.SelectorExpr:
+			sel := f.Info.Selections[x]
+			if sel == nil || sel.Kind() != types.MethodVal {
+				return nil, nil, nil, Point{}
+			}
+			fn, _ := sel.Obj().(*types.Func)
+			if fn == nil || f.P == nil {
+				return nil, nil, nil, Point{}
+			}
+			fn = fn.Origin()
+			fd := f.P.decls().byFunc[fn]
+			if fd == nil || fd.Body == nil {
+				return nil, nil, nil, Point{}
+			}
+			if _, isPath := pathOf(f.Info, x.X); !isPath {
+				return nil, nil, nil, Point{}
+			}
+			return fd, fn, x.X, pt
+		case *ast.Ident:
+			o, _ := f.Info.Uses[x].(*types.Var)
+			if o == nil {
+				return nil, nil, nil, Point{}
+			}
+			if _, isFn := o.Type().Underlying().(*types.Signature); !isFn {
+				return nil, nil, nil, Point{}
+			}
+			if arg, apt, ok := f.paramArg(o, pt); ok {
+				cur, pt = arg, apt
+				continue
+			}
+			return nil, nil, nil, Point{}
+		default:
+			return nil, nil, nil, Point{}
+		}
+	}
+	return nil, nil, nil, Point{}
+}
+
 // EdgeFacts: the atoms known on the true/false edge of the branch that ends block b, decomposed
 // through helpers and boolean temporaries (what forEachEdgeFact reports for that edge).
 func (f *FuncCFG) EdgeFacts(b *cfg.Block, branch bool) []fact {
@@ -2722,4 +2908,146 @@ func (f *FuncCFG) EdgeFacts(b *cfg.Block, branch bool) []fact {
 	}
 	f.factCache[ek{b, branch}] = out
 	return out
+}
+
+// originVal is one leaf expression a value may come from, with the point it is evaluated at.
+type originVal struct {
+	E  ast.Expr
+	At Point
+}
+
+// Origins follows e (evaluated at pt) backwards through EVERY reaching definition, through the
+// parameters of expanded helpers and through every return site of an expanded helper (the matching
+// result of a tuple), down to the expressions that are not plain local variables. Resolve answers
+// "what single expression is this"; Origins answers "which expressions can this value have come
+// from" when there are several (a helper with one return per case). Only origins from which the use
+// is reachable on a consistent path are returned.
+func (f *FuncCFG) Origins(e ast.Expr, pt Point) []originVal {
+	var out []originVal
+	type key struct {
+		e  ast.Expr
+		pt Point
+	}
+	seen := map[key]bool{}
+	var walk func(e ast.Expr, pt Point, depth int)
+	walk = func(e ast.Expr, pt Point, depth int) {
+		e = ast.Unparen(e)
+		if seen[key{e, pt}] {
+			return
+		}
+		seen[key{e, pt}] = true
+		if depth <= 0 {
+			out = append(out, originVal{e, pt})
+			return
+		}
+		if c, isCall := e.(*ast.CallExpr); isCall && !f.CallsOpaque {
+			if reg := f.regionByCall(c); reg != nil && len(reg.rets) > 0 && len(reg.rets[0].results) == 1 {
+				for _, rt := range reg.rets {
+					walk(rt.results[0], rt.pt, depth-1)
+				}
+				return
+			}
+		}
+		id, ok := e.(*ast.Ident)
+		if !ok {
+			out = append(out, originVal{e, pt})
+			return
+		}
+		obj, isVar := objOfIdentRaw(f.Info, id).(*types.Var)
+		if !isVar {
+			out = append(out, originVal{e, pt})
+			return
+		}
+		defs, fromEntry := f.ReachingDefs(pt, obj)
+		if fromEntry || len(defs) == 0 {
+			if arg, cpt, ok := f.paramArg(obj, pt); ok {
+				walk(arg, cpt, depth-1)
+			} else {
+				out = append(out, originVal{e, pt})
+			}
+		}
+		for _, d := range defs {
+			as, isAs := f.nodeAt(d.At).(*ast.AssignStmt)
+			if isAs && len(as.Rhs) == 1 && len(as.Lhs) > 1 && !f.CallsOpaque {
+				if c, isCall := ast.Unparen(as.Rhs[0]).(*ast.CallExpr); isCall {
+					if reg := f.regionByCall(c); reg != nil {
+						li := -1
+						for k, l := range as.Lhs {
+							if objOfIdentRaw(f.Info, l) == obj {
+								li = k
+							}
+						}
+						okAll := li >= 0
+						for _, rt := range reg.rets {
+							if li >= len(rt.results) {
+								okAll = false
+							}
+						}
+						if okAll {
+							for _, rt := range reg.rets {
+								walk(rt.results[li], rt.pt, depth-1)
+							}
+							continue
+						}
+					}
+				}
+				out = append(out, originVal{d.Rhs, d.At})
+				continue
+			}
+			walk(d.Rhs, d.At, depth-1)
+		}
+	}
+	walk(e, pt, 8)
+	var live []originVal
+	for _, o := range out {
+		if f.At(o.At, pt) {
+			live = append(live, o)
+			continue
+		}
+		if _, ok := f.reach(o.At, nil, func(q Point, atExit bool) bool { return !atExit && f.At(q, pt) }); ok {
+			live = append(live, o)
+		}
+	}
+	return live
+}
+
+// SameValue: a at apt and b at bpt denote the same value: equal resolved keys, and every plain
+// variable either resolves to has the same reaching definitions at both points.
+func (f *FuncCFG) SameValue(a ast.Expr, apt Point, b ast.Expr, bpt Point) bool {
+	ra, rapt := f.Resolve(a, apt)
+	rb, rbpt := f.Resolve(b, bpt)
+	if f.KeyAt(ra, rapt) != f.KeyAt(rb, rbpt) {
+		return false
+	}
+	ida, okA := ast.Unparen(ra).(*ast.Ident)
+	idb, okB := ast.Unparen(rb).(*ast.Ident)
+	if okA != okB {
+		return false
+	}
+	if !okA {
+		// an impure expression is the same value only as the same evaluation
+		if !pureExpr(f.Info, ra) {
+			return ast.Unparen(ra) == ast.Unparen(rb)
+		}
+		return true
+	}
+	oa, ob := objOfIdentRaw(f.Info, ida), objOfIdentRaw(f.Info, idb)
+	if oa == nil || oa != ob {
+		return false
+	}
+	da, ea := f.ReachingDefs(rapt, oa)
+	db, eb := f.ReachingDefs(rbpt, ob)
+	if ea != eb || len(da) != len(db) {
+		return false
+	}
+	set := map[Point]bool{}
+	for _, d := range da {
+		set[d.At] = true
+	}
+	for _, d := range db {
+		if !set[d.At] {
+			return false
+		}
+	}
+	return true
 }
